@@ -60,8 +60,19 @@ def module_case(seed, index, tier, T, ctx="synth", **kw):
     return c
 
 
+_LOADS = [0]
+
+
 def load(raw):
+    """Load from an in-memory stream; every fifth time the file sits BEHIND something else in the stream (a bundle header, an
+    archive member offset) and the stream is positioned at its start, as `read_sunvox_file(f)` documents ("file f")."""
     import rv.api as api
+    _LOADS[0] += 1
+    if _LOADS[0] % 5 == 0:
+        head = (b"BNDL\x01\x00\x00\x00hdr!", b"\0" * 7, b"SVOX\0\0\0\0"[:5])[_LOADS[0] // 5 % 3]
+        f = BytesIO(head + bytes(raw))
+        f.seek(len(head))
+        return api.read_sunvox_file(f)
     return api.read_sunvox_file(BytesIO(raw))
 
 
